@@ -417,6 +417,9 @@ def main():
             seeded, s2broken = st.run_seeded(prop, rule_names, scratch)
             extra_broken += s2broken
             selftest = dict(selftest or {}, seeded_changes=seeded)
+            refac, s3broken = st.run_refactors(prop, rule_names, scratch)
+            extra_broken += s3broken
+            selftest = dict(selftest, refactorings=refac)
         if wsum:
             selftest = dict(selftest or {}, witnesses=wsum)
         return decide(prop, rule_names, sites, stats, tier, t0, selftest, extra_broken)
